@@ -637,6 +637,24 @@ func buildWorld(o hx.Op) (*world, bool) {
 		}
 		m.Cache = mc
 	}
+	// in-memory challenge certificates (m.certTokens)
+	if ts := o.Str("tokens"); ts != "" && ts != "-" {
+		for _, e := range strings.Split(ts, ",") {
+			nh, val, ok := strings.Cut(e, ":")
+			name, ok2 := unhexStr(nh)
+			d, ok3 := parseDesc(val)
+			if !ok || !ok2 || !ok3 {
+				return nil, false
+			}
+			der, priv, err := makeCert(d, name, nil)
+			if err != nil {
+				w.broken = "makeCert: " + err.Error()
+				break
+			}
+			w.byDER[string(der)] = d.id
+			autocert.VerifPutCertToken(m, name, &tls.Certificate{Certificate: [][]byte{der}, PrivateKey: priv})
+		}
+	}
 	// CA
 	ca := &fakeCA{log: w.log, certs: map[string][]byte{}, issued: map[string]bool{}}
 	if c := o.Str("ca"); c == "refuse" {
@@ -1006,6 +1024,12 @@ func genWorldAndCalls(g *hx.Gen, mode string) {
 		dom = strings.TrimSuffix(b, ".")
 	}
 	id := 0
+	var notAfters []int64 // NotAfter of every certificate that could enter m.state
+	noteNA := func(val string) {
+		if d, ok := parseDesc(val); ok {
+			notAfters = append(notAfters, d.na)
+		}
+	}
 	if r.Chance(1, 10) {
 		sb.WriteString(" cache=nil")
 		g.Stat("cache.none")
@@ -1033,6 +1057,7 @@ func genWorldAndCalls(g *hx.Gen, mode string) {
 				g.Stat("cache.unusable-entry")
 			default:
 				val = genDesc(r, g, id, now, k.typ, kdom)
+				noteNA(val)
 			}
 			ents = append(ents, hx.Hex([]byte(k.key))+":"+val)
 		}
@@ -1045,8 +1070,22 @@ func genWorldAndCalls(g *hx.Gen, mode string) {
 		g.Stat("ca.refuses-order")
 	} else {
 		d := genDesc(r, g, 0, now, "ec", dom)
+		noteNA(d)
 		// the CA certifies the CSR key when match=1; pub only matters for match=0
 		fmt.Fprintf(&sb, " ca=%s", d)
+	}
+	// m.certTokens: challenge certificates in memory (served as stored, whatever their state)
+	if ascii != "err" && r.Chance(1, 4) {
+		full, _ := unhexStr(ascii)
+		var toks []string
+		for _, nm := range []string{full, dom, "other.example"} {
+			if r.Chance(1, 2) && !strings.Contains(strings.Join(toks, ","), hx.Hex([]byte(nm))+":") {
+				id++
+				toks = append(toks, hx.Hex([]byte(nm))+":"+genDesc(r, g, id, now, hx.Pick(r, []string{"ec", "rsa"}), nm))
+			}
+		}
+		fmt.Fprintf(&sb, " tokens=%s", hx.JoinStrs(toks))
+		g.Stat("tokens.in-memory")
 	}
 	switch mode {
 	case "gc":
@@ -1068,19 +1107,43 @@ func genWorldAndCalls(g *hx.Gen, mode string) {
 			}
 			sb.WriteString(genHello(r, g, fmt.Sprintf("h%d.", i), nm, hx.Pick(r, []int{0, 1, 1, 1, 2})))
 		}
-		var calls []string
-		t := now
-		for k := r.Range(2, 5); k > 0; k-- {
-			calls = append(calls, fmt.Sprintf("%d@%d", r.Intn(nh), t))
-			switch r.Intn(4) {
-			case 0:
-				t += int64(r.Range(1, 100))
-			case 1:
-				t += int64(r.Range(1, 200*86400)) // possibly past NotAfter of what is in m.state
-				g.Stat("hist.clock-jump")
+		// horizon = earliest NotAfter among the certificates that are not already expired: as long as the
+		// clock stays at or before it, nothing in m.state can be stale. exp=1 histories cross it on purpose
+		// (observation O6: the code keeps serving the m.state entry), exp=0 histories never do.
+		horizon := int64(1) << 40
+		for _, na := range notAfters {
+			if na >= now && na < horizon {
+				horizon = na
 			}
 		}
-		fmt.Fprintf(&sb, " calls=%s", strings.Join(calls, ","))
+		exp := r.Chance(1, 2)
+		var calls []string
+		t := now
+		ncalls := r.Range(2, 5)
+		for k := 0; k < ncalls; k++ {
+			if exp && k == ncalls-1-r.Intn(2) && k > 0 && t <= horizon {
+				t = horizon + int64(r.Range(1, 40*86400))
+				g.Stat("hist.clock-crosses-NotAfter")
+			}
+			calls = append(calls, fmt.Sprintf("%d@%d", r.Intn(nh), t))
+			step := int64(0)
+			switch r.Intn(4) {
+			case 0:
+				step = int64(r.Range(1, 100))
+			case 1:
+				step = int64(r.Range(1, 200*86400))
+				g.Stat("hist.clock-jump")
+			}
+			if !exp && t+step > horizon {
+				step = 0
+			}
+			t += step
+		}
+		e := 0
+		if exp {
+			e = 1
+		}
+		fmt.Fprintf(&sb, " calls=%s exp=%d", strings.Join(calls, ","), e)
 	case "conc":
 		sb.WriteString(genHello(r, g, "h0.", name, 1))
 		sb.WriteString(genHello(r, g, "h1.", name, hx.Pick(r, []int{1, 1, 2})))
